@@ -38,7 +38,7 @@ class FakeLine:
             l = z3.Real(f"_len{c.fresh_n}")
             dx = self.p2[0] - self.p1[0]
             dy = self.p2[1] - self.p1[1]
-            c.add(z3.And(l >= 0, l * l == symx._z(dx * dx + dy * dy)))
+            c.add_axiom(z3.And(l >= 0, l * l == symx._z(dx * dx + dy * dy)))
             self._len = symx.SymReal(l)
         return self._len
 
